@@ -24,7 +24,7 @@ SCRATCH = COPY + "_out"
 
 # (name, kind, file, [(old text, new text)], Props id, expectation)
 MUTATIONS = [
-    ("unchanged", "control", None, [], "C17 C19 C18 C09 C14 C10 C02 C20 C11 C03 C12 C13 C15 C16 C01", "all pass"),
+    ("unchanged", "control", None, [], "C17 C19 C18 C09 C14 C10 C02 C20 C11 C03 C12 C13 C15 C16 C01 C01:7 C02:7 C03:7", "all pass"),
     # ---- meaning-changing edits (the brief's four, plus further ones)
     ("max_bond_length: or -> and", "breaking", "mofun/detect_bonds.py",
      [("if el1 in NON_METALS or el2 in NON_METALS:", "if el1 in NON_METALS and el2 in NON_METALS:")], "C17", "fail"),
@@ -356,6 +356,39 @@ MUTATIONS = [
      [("return [i for i, t in enumerate(types) if t == element]", "return [i for i, t in enumerate(types)]")], "C02:5", "fail"),
     ("atoms_of_type: variables renamed, operands of == swapped", "neutral", "mofun/helpers.py",
      [("return [i for i, t in enumerate(types) if t == element]", "return [k for k, e in enumerate(types) if element == e]")], "C02:5", "pass"),
+    # ---- seventh batch: hints, grouping key, reported tuples of find_pattern_in_structure; remove_duplicates
+    ("find hints: elif `or` -> `and` (one given hint is no longer completed)", "breaking", "mofun/mofun.py",
+     [("elif axisp1_idx is None or axisp2_idx is None:", "elif axisp1_idx is None and axisp2_idx is None:")], "C03:7", "fail"),
+    ("find hints: first `and` -> `or` (a given hint is overwritten by the farthest pair)", "breaking", "mofun/mofun.py",
+     [("if axisp1_idx is None and axisp2_idx is None:", "if axisp1_idx is None or axisp2_idx is None:")], "C03:7", "fail"),
+    ("find hints: IfExp branches swapped (the missing hint becomes axisp1)", "breaking", "mofun/mofun.py",
+     [('axisp1_idx = axisp2_idx if axisp1_idx is None else axisp1_idx', "axisp1_idx = axisp1_idx if axisp1_idx is None else axisp2_idx")], "C03:7", "fail"),
+    ("find hints: farthest from axisp2_idx instead of axisp1_idx", "breaking", "mofun/mofun.py",
+     [("axisp2_idx = np.argmax(p_ss[axisp1_idx, :])", "axisp2_idx = np.argmax(p_ss[axisp2_idx, :])")], "C03:7", "fail"),
+    ("find hints: IfExp written with `is not None`   (EQUIVALENT)", "neutral", "mofun/mofun.py",
+     [('axisp1_idx = axisp2_idx if axisp1_idx is None else axisp1_idx', "axisp1_idx = axisp1_idx if axisp1_idx is not None else axisp2_idx")], "C03:7", "pass"),
+    ("find key: sorted() dropped", "breaking", "mofun/mofun.py",
+     [('key=lambda m: tuple(sorted([near_indices[i] % len(structure) for i in m]))', "key=lambda m: tuple([near_indices[i] % len(structure) for i in m])")], "C02:7", "fail"),
+    ("find key: modulo dropped (images of one atom group get different keys)", "breaking", "mofun/mofun.py",
+     [('key=lambda m: tuple(sorted([near_indices[i] % len(structure) for i in m]))', "key=lambda m: tuple(sorted([near_indices[i] for i in m]))")], "C02:7", "fail"),
+    ("find key: sorted(…, reverse=True)", "breaking", "mofun/mofun.py",
+     [('key=lambda m: tuple(sorted([near_indices[i] % len(structure) for i in m]))', "key=lambda m: tuple(sorted([near_indices[i] % len(structure) for i in m], reverse=True))")], "C02:7", "fail"),
+    ("find key: comprehension variable renamed   (EQUIVALENT)", "neutral", "mofun/mofun.py",
+     [('key=lambda m: tuple(sorted([near_indices[i] % len(structure) for i in m]))', "key=lambda m: tuple(sorted([near_indices[k] % len(structure) for k in m]))")], "C02:7", "pass"),
+    ("remove_duplicates: matches[0] -> matches[1]", "breaking", "mofun/helpers.py",
+     [('        return [matches[0] for _, matches in keyed_tuples.items()]\n', "        return [matches[1] for _, matches in keyed_tuples.items()]\n")], "C02:7", "fail"),
+    ("remove_duplicates: pick-first returns the keys", "breaking", "mofun/helpers.py",
+     [('        return [matches[0] for _, matches in keyed_tuples.items()]\n', "        return [k for k, matches in keyed_tuples.items()]\n")], "C02:7", "fail"),
+    ("remove_duplicates: names changed   (EQUIVALENT)", "neutral", "mofun/helpers.py",
+     [('        return [matches[0] for _, matches in keyed_tuples.items()]\n', "        return [ms[0] for _k, ms in keyed_tuples.items()]\n")], "C02:7", "pass"),
+    ("find result: the reported tuple is sorted", "breaking", "mofun/mofun.py",
+     [('match_index_tuples_in_uc = [tuple([near_indices[m] % len(structure) for m in match]) for match in good_match_index_tuples]', "match_index_tuples_in_uc = [tuple(sorted([near_indices[m] % len(structure) for m in match])) for match in good_match_index_tuples]")], "C01:7", "fail"),
+    ("find result: near-list position instead of near_indices[m]", "breaking", "mofun/mofun.py",
+     [('match_index_tuples_in_uc = [tuple([near_indices[m] % len(structure) for m in match]) for match in good_match_index_tuples]', "match_index_tuples_in_uc = [tuple([m % len(structure) for m in match]) for match in good_match_index_tuples]")], "C01:7", "fail"),
+    ("find result: the first chosen candidate is dropped", "breaking", "mofun/mofun.py",
+     [('match_index_tuples_in_uc = [tuple([near_indices[m] % len(structure) for m in match]) for match in good_match_index_tuples]', "match_index_tuples_in_uc = [tuple([near_indices[m] % len(structure) for m in match]) for match in good_match_index_tuples[1:]]")], "C01:7", "fail"),
+    ("find result: variables renamed   (EQUIVALENT)", "neutral", "mofun/mofun.py",
+     [('match_index_tuples_in_uc = [tuple([near_indices[m] % len(structure) for m in match]) for match in good_match_index_tuples]', "match_index_tuples_in_uc = [tuple([near_indices[k] % len(structure) for k in t]) for t in good_match_index_tuples]")], "C01:7", "pass"),
     # ---- leaving the subset
     ("max_bond_length: while loop added (outside the subset)", "unsupported", "mofun/detect_bonds.py",
      [('    """Return the maximum length of a bond between two elements"""\n', '    while False:\n        pass\n')], "C17", "Unsupported"),
